@@ -15,6 +15,8 @@ import Sck.Model.Hall
 import Sck.Model.Irving
 import Sck.Model.C12Spec
 import Sck.Driver.FlowOps
+import Sck.Model.Profile
+import Sck.Model.Preflib
 
 /-! One canonical answer line per op line (core-only; compiled into the `driver` executable). -/
 
@@ -324,6 +326,87 @@ def opElicitor : P String := do
   pure (joinS (["ok", toString st.count, toString st.forwarded.length] ++
     st.forwarded.flatMap (fun e => [toString e.1, toString e.2]) ++ showRats ans))
 
+/-! ### profile conversions (C18) and PrefLib (C19) -/
+
+def b2s (b : Bool) : String := if b then "1" else "0"
+
+/-- `ordinal m vals… out…` → `ok <ordinalOkB>` -/
+def opOrdinal : P String := do
+  let m ← nat
+  let vals ← rep optRat m
+  let out ← rep optNat m
+  eol
+  pure s!"ok {b2s (ordinalOkB vals out)}"
+
+/-- `strictify m row… out… first` → `ok <wfTiesB row> <strictifyOkB row out first>` -/
+def opStrictify : P String := do
+  let m ← nat
+  let row ← rep optNat m
+  let out ← rep optNat m
+  let first ← nat
+  eol
+  pure s!"ok {b2s (wfTiesB row)} {b2s (strictifyOkB row out (first == 1))}"
+
+/-- `complete m row… out… mode` → `ok <wfIncompleteB row> <completeOkB row out mode>` -/
+def opComplete : P String := do
+  let m ← nat
+  let row ← rep optNat m
+  let out ← rep optNat m
+  let mode ← nat
+  eol
+  pure s!"ok {b2s (wfIncompleteB row)} {b2s (completeOkB row out mode)}"
+
+/-- `consistent m vals… ranks… o1… o2…` → `ok <validDesc o1> <validAsc o2> <isConsistentWith npTol> <isConsistentOrigWith npTol>` -/
+def opConsistent : P String := do
+  let m ← nat
+  let vals ← rep optRat m
+  let ranks ← rep optNat m
+  let o1 ← rep nat m
+  let o2 ← rep nat m
+  eol
+  pure (joinS ["ok", b2s (validDescOrder vals o1), b2s (validAscOrder ranks o2 false),
+    b2s (isConsistentWith npTol vals ranks o1 o2), b2s (isConsistentOrigWith npTol vals ranks o1 o2)])
+
+/-- `generate m ranks… k draws… clip(0/1)` → `ok vals…` -/
+def opGenerate : P String := do
+  let m ← nat
+  let ranks ← rep optNat m
+  let draws ← list rat
+  let cl ← nat
+  eol
+  let d := if cl == 1 then clip draws else draws
+  pure (joinS ("ok" :: (generateRow ranks d).map showOptRat))
+
+def pKind : P PrefKind := do
+  let t ← tok
+  match t with
+  | "soc" => pure .soc | "soi" => pure .soi | "toc" => pure .toc | "toi" => pure .toi | "cat" => pure .cat
+  | _ => throw s!"kind:{t}"
+
+def pOrder : P (List (List Nat)) := list (list nat)
+
+/-- `preflib kind mode(accept|first) m dataType k (order mult)*` → `ok nrows (row m entries)*` | `err …` -/
+def opPreflib : P String := do
+  let kind ← pKind
+  let modeT ← tok
+  let m ← nat
+  let dt ← tok
+  let orders ← list (do let o ← pOrder; let mult ← nat; pure (o, mult))
+  eol
+  let mode : TieMode := if modeT == "accept" then .accept else .first
+  match convRows kind mode { m := m, dataType := dt, orders := orders } with
+  | .error e => pure s!"err {e.replace " " "_"}"
+  | .ok rows => pure (joinS (["ok", toString rows.length] ++ rows.flatMap (fun r => r.map showOptNat)))
+
+/-- `prefrow m mode(0|1|2) order row…` → `ok <orderWFB> <prefRowOkB>` -/
+def opPrefRow : P String := do
+  let m ← nat
+  let mode ← nat
+  let order ← pOrder
+  let row ← rep optNat m
+  eol
+  pure s!"ok {b2s (orderWFB m order)} {b2s (prefRowOkB m order mode row)}"
+
 /-- `distortion m scores… k chosen…` (0-indexed chosen alternatives) → `ok value` -/
 def opDistortion : P String := do
   let scores ← list rat
@@ -358,6 +441,13 @@ def dispatch : String → Option (P String)
   | "m2q" => some opM2q
   | "elicitor" => some opElicitor
   | "distortion" => some opDistortion
+  | "ordinal" => some opOrdinal
+  | "strictify" => some opStrictify
+  | "complete" => some opComplete
+  | "consistent" => some opConsistent
+  | "generate" => some opGenerate
+  | "preflib" => some opPreflib
+  | "prefrow" => some opPrefRow
   | op => dispatchFlow op
 
 def handle (line : String) : String :=
